@@ -360,7 +360,7 @@ Definition ko_ref_item (r : Z * Z * bool) : item :=
 (* tx: what the coded entry given as document title carries beyond value / scheme / meaning
    ([] = nothing: no attribute 14) *)
 Definition name_entry_attrs (tx : list Z) : attrs :=
-  match tx with [] => [] | _ => [(14, tx)] end.
+  match tx with [] => [] | _ => [(k_name_entry, tx)] end.
 
 Definition ko_content (title : Z) (tx : list Z) (descr : option Z) (refs : list (Z * Z * bool)) : res item :=
   match refs with
